@@ -103,6 +103,24 @@ def main(path):
     args = {k: build(v) for k, v in model['args'].items()}
     target = resolve(model['function'])
     K = resolve(rep['contract']) if rep.get('contract') else None
+    if K is not None and hasattr(K, 'native_case'):
+        # the contract knows how to realise the abstract parts of the model with real objects
+        case = K.native_case(model, ob)
+        if case is None:
+            print(json.dumps({'confirmed': None, 'detail': 'the abstract parts of the model have no native realisation'}))
+            return
+        result, exc = None, None
+        try:
+            result = case['call']()
+        except BaseException as e:      # noqa
+            exc = e
+        b = dict(case['bindings']); b['r'] = result
+        if exc is not None:
+            print(json.dumps({'confirmed': ob['kind'] == 'safety', 'detail': f'real call raised {type(exc).__name__}: {exc}'}))
+            return
+        val = bool(call_clause(find_clause(ob['meta']['clause']), b))
+        print(json.dumps({'confirmed': not val, 'detail': f'clause evaluated to {val}; real result {result!r}; case {case.get("desc")}'}))
+        return
     argnames = getattr(K, 'argnames', tuple(args)) if K is not None else tuple(args)
     a = tuple(args[n] for n in argnames if n in args)
     warn_err = bool(model.get('warnings_are_errors'))
